@@ -30,6 +30,12 @@ def check_C(world, op, obj, root, part, outcome, obs, info, wl):
         world.bump("check.C.skipped_twin_raises")
         return
     twin = observe_part(twin_res, part)
+    tm = np.asarray(twin["M"])
+    if tm.dtype.kind not in "fiub" or not np.all(np.isfinite(tm.astype(float))):
+        # missing / non-finite numbers (e.g. a transform fitted on data with NaN under na_action='pass'):
+        # 0 * NaN is NaN, the zero rule cannot be stated; NaN semantics are C09's, not judged here
+        world.bump("check.C.skipped_nonfinite_twin")
+        return
     n = F.n_rows(world.frame_spec[op["frame"]])
     n_warn = formulae_user_warnings(wl)
     ctx = {"formula": root["op"]["formula"], "mode": mode, "polluted": polluted}
